@@ -550,7 +550,25 @@ class ExprBuilder:
             return ("place", _norm_self(s), p["ty"])
         if not rest:
             return e
-        return ("proj", e, proj_str(rest), p["ty"])
+        ps = proj_str(rest)
+        # `?` on the result of a spliced helper: Try::branch(phi(Ok{v} | from_residual(..) ..))@Continue.0
+        # is v (the Continue payload exists only on the Ok alternative)
+        if ps.startswith("@Continue.0") and e[0] == "call" and (e[2] or e[1] or "").endswith("::branch") and e[3]:
+            x = e[3][0]
+            while x[0] == "ref":
+                x = x[2]
+            if x[0] == "phi":
+                oks = [a for a in x[2] if a[0] == "agg" and a[1] == "adt" and a[3] in ("Ok", "Some") and len(a[5]) == 1]
+                others = [a for a in x[2] if a not in oks]
+                if oks and all(a[0] == "call" and (a[2] or a[1] or "").endswith("from_residual") or (a[0] == "agg" and a[1] == "adt" and a[3] in ("Err", "None")) for a in others):
+                    v = oks[0][5][0] if len(oks) == 1 else ("phi", x[1], tuple(a[5][0] for a in oks))
+                    rest_ps = ps[len("@Continue.0"):]
+                    if not rest_ps:
+                        return v
+                    if v[0] == "place":
+                        return ("place", _norm_self(v[1] + rest_ps), p["ty"])
+                    return ("proj", v, rest_ps, p["ty"])
+        return ("proj", e, ps, p["ty"])
 
     def local(self, local, depth=0, stack=()):
         fn = self.fn
